@@ -243,6 +243,15 @@ extern "C" void harness()
 		g->t->currentCounter.value = c0;
 	}
 #endif
+#ifdef ANYC
+	{
+		// the list has already seen an arbitrary number c0 of additions, at least 64 short of 2^32: nothing in this program can reach the wrap, so the
+		// strict rules hold without the licence C19 gives to an invocation in progress at the wrap ("wraps around after 2^32 additions", not earlier)
+		uint32_t c0 = vf_nondet_u32();
+		vf_assume(c0 >= 1u && c0 <= 0xffffffffu - 64u);
+		g->t->currentCounter.value = c0;
+	}
+#endif
 	for(int i = 0; i < N0; i++) { g->hs[g->m.alloc] = do_append((uint32_t)g->m.alloc); g->m.add_at(g->m.cnt); }
 	invoke(vf_nondet_u32());
 	// after the outermost invocation the list holds exactly what the same operations produce outside an invocation
